@@ -386,6 +386,62 @@ fn long_offsets(run: &mut Run, tier: Tier) {
     merge(run, "C01", "long_offset_extra_bits", vec![a], false);
 }
 
+/// (E) every Huffman alphabet size: a complete two-length code over n symbols for every n in 2..=256, described
+/// directly (n - 1 <= 128 weights) and through FSE-compressed weights, literals in one and in four streams, as a
+/// whole frame through the front ends (the BFS of (A) uses one 7-symbol and one 20-symbol table; the description's
+/// length and the table's size are a dimension of their own: byte counts, the 128-weight boundary, wide tables)
+fn huffman_alphabets(run: &mut Run) {
+    let ns: Vec<usize> = (2..=256).collect();
+    let accs = meter::par_fold(ns.len(), meter::threads(), Acc::default, |a, i| {
+        let n = ns[i];
+        let k = (usize::BITS - (n - 1).leading_zeros()) as usize; // 2^(k-1) < n <= 2^k
+        let (x, y) = ((1usize << k) - n, 2 * n - (1usize << k)); // x codes of length k-1 (weight 2), y of length k (weight 1)
+        let mut head = vec![2u8; x];
+        head.extend(std::iter::repeat(1u8).take(y - 1));
+        let Some(weights) = zmodel::huf::complete(&head) else {
+            a.bad("MODEL:huffman_alphabets".into(), format!("MODEL ERROR: no complete code over {n} symbols"), json!({}));
+            return;
+        };
+        for fse_desc in [false, true] {
+            if (!fse_desc && n - 1 > 128) || (fse_desc && (x == 0 || y == 1)) {
+                continue; // direct descriptions hold at most 128 weights; an FSE description needs two weight values in its head
+            }
+            for streams in [1u8, 4] {
+                a.evals += 1;
+                let count = if streams == 1 { n + 16 } else { 3 * n + 8 };
+                let lits: Vec<u8> = (0..count).map(|j| ((j * 7 + j / n) % n) as u8).collect();
+                let desc = if fse_desc {
+                    let (d, l) = gen::weights_dist(&head);
+                    WDesc::Fse(d, l)
+                } else {
+                    WDesc::Direct
+                };
+                let size_format = if streams == 1 { 0 } else { 2 };
+                let blocks = vec![Block::Compressed { lits: Lits::Huff { lits, weights: weights.clone(), desc, streams, size_format }, count_form: 1, modes: pre(), seqs: vec![Seq { ll: 3, ml: 5, of: 2 + 3 }], pick: 1 }];
+                let spec = FrameSpec { header: Header::window(0, true), blocks };
+                let rp = json!({"case": "huffman_alphabet", "symbols": n, "fse_described": fse_desc, "streams": streams});
+                let Some((frame, want)) = realize(&spec, None) else {
+                    if fse_desc {
+                        a.extra[1] += 1; // this weight distribution has no FSE description in the model's normaliser
+                    } else {
+                        a.bad("MODEL:huffman_alphabets".into(), format!("MODEL ERROR: frame with a direct {n}-symbol table not representable"), rp);
+                    }
+                    continue;
+                };
+                match judge_frame(&frame, &want, &[0, 7], false) {
+                    Verdict::Fine => a.nontrivial += 1,
+                    Verdict::NotValidPerReference(_) if fse_desc => a.extra[1] += 1,
+                    Verdict::NotValidPerReference(e) => a.bad("MODEL:huffman_alphabets".into(), format!("MODEL ERROR: libzstd rejects the frame with a direct {n}-symbol table: {e}"), rp),
+                    Verdict::ModelError(e) => a.bad("MODEL:huffman_alphabets".into(), format!("MODEL ERROR: {e}"), rp),
+                    Verdict::Violation(e) => a.bad(format!("huffman_alphabets:{}:{}", if fse_desc { "fse" } else { "direct" }, if n - 1 >= 64 { "64_or_more_weights" } else { "fewer_than_64_weights" }), format!("valid frame whose literals use a complete Huffman code over {n} symbols ({} description, {streams} stream(s)): {e}", if fse_desc { "FSE-compressed" } else { "direct" }), rp),
+                }
+            }
+        }
+    });
+    let x = merge(run, "C01", "huffman_alphabet_sizes", accs, true);
+    run.set("huffman_alphabet_frames_without_fse_description", x[1]);
+}
+
 pub fn main(tier: Tier, replay: Option<Value>) -> i32 {
     if let Some(r) = replay {
         return do_replay(&r["replay"]);
@@ -395,8 +451,9 @@ pub fn main(tier: Tier, replay: Option<Value>) -> i32 {
     matrix(&mut run, tier);
     metadata(&mut run);
     long_offsets(&mut run, tier);
+    huffman_alphabets(&mut run);
     run.set("exhaustive", false);
-    run.set("rule", "BFS over the abstract decoder state (Huffman table live?, LL/OF/ML table kind none|predefined|rle|fse): from every reachable state every applicable block archetype (literals kind x size format x streams x weight description; sequence count form; 5^3 table modes; payload pattern) is appended, the frame is encoded by the spec encoder, decoded by libzstd (must equal the spec executor), by the strict walker and by the crate through two front ends. Plus the libzstd parameter matrix over 11 inputs, header metadata boundaries and long-offset frames. evaluations/distinct_nontrivial count the non-BFS families; states/transitions the BFS");
+    run.set("rule", "BFS over the abstract decoder state (Huffman table live?, LL/OF/ML table kind none|predefined|rle|fse): from every reachable state every applicable block archetype (literals kind x size format x streams x weight description; sequence count form; 5^3 table modes; payload pattern) is appended, the frame is encoded by the spec encoder, decoded by libzstd (must equal the spec executor), by the strict walker and by the crate through two front ends. Plus the libzstd parameter matrix over 11 inputs, header metadata boundaries, long-offset frames, and a complete two-length Huffman code over every alphabet size 2..=256 (direct and FSE-compressed description, 1 and 4 streams) as a whole frame. evaluations/distinct_nontrivial count the non-BFS families; states/transitions the BFS");
     run.assume("libzstd 1.5.7 defines which frames are valid; frames it rejects are dropped and listed under not_valid_per_reference");
     run.assume("abstract states merge concrete tables of the same kind; concrete tables are enumerated in C12/C13");
     // model errors are machinery failures, not verdicts
